@@ -10,7 +10,7 @@
        real cursor is the specification; refuted without each side condition.
     5. a hit ignores the parameters altogether. *)
 From Coq Require Import List ZArith Bool Lia.
-From VibeSQL Require Import Lex.F64Display Lex.Placeholder Lex.PlaceholderLaws Store.Cursor.
+From VibeSQL Require Import Lex.F64Display Lex.Placeholder Lex.PlaceholderLaws Lex.PlaceholderFixed Lex.PlaceholderFixedLaws Store.Cursor.
 Import ListNotations.
 Open Scope Z_scope.
 
@@ -330,6 +330,43 @@ Section Laws.
     intros calls d. apply (cache_transparent_fixed process_spec calls d new_cursor). intros k s [].
   Qed.
 
+  (** * 6. the code as it is now ([execute_now]: bound-key cache, values refused as the specification does) *)
+  Notation run_now := (Cursor.run_now stmt D res parse kind exec cap).
+
+  Theorem cache_transparent_now : forall calls d,
+    let '(os, d', c') := run_now d new_cursor calls in
+    run_plain process_now d None calls = (os, d', last c').
+  Proof. intros calls d. apply (cache_transparent_fixed process_now calls d new_cursor). intros k s []. Qed.
+
+  (** the only side condition left: no '?' inside a literal / delimited identifier / comment *)
+  Definition clean_now (c : text * option (list pyval)) : Prop :=
+    forall ps, snd c = Some ps -> count_protected_qm SCode (fst c) = O.
+
+  Theorem binding_faithful_now : forall calls d,
+    Forall clean_now calls ->
+    let '(os, d', c') := run_now d new_cursor calls in
+    run_spec d calls = (os, d', last c').
+  Proof.
+    intros calls d HC. pose proof (cache_transparent_now calls d) as H.
+    destruct (run_now d new_cursor calls) as [[os d'] c']. rewrite <- H. unfold Cursor.run_spec.
+    symmetry. apply run_plain_ext. intros sql ps Hin.
+    rewrite Forall_forall in HC. specialize (HC _ Hin). apply process_now_eq_spec. exact HC.
+  Qed.
+
+  Theorem cache_size_bound_now : forall d c sql ps d' c' o,
+    (length (cache c) <= cap)%nat ->
+    Cursor.execute_now stmt D res parse kind exec cap d c sql ps = (d', c', o) -> (length (cache c') <= cap)%nat.
+  Proof.
+    intros d c sql ps d' c' o Hc H. unfold Cursor.execute_now, Cursor.execute_fixed in H.
+    destruct (process_now sql ps) as [t|]; [|inversion H; now subst].
+    destruct (lru_get t (cache c)) as [[st cache']|] eqn:Eg.
+    - apply run_stmt_cache in H. cbn [cache] in H. pose proof (lru_get_length _ _ _ _ Eg).
+      destruct H as [->| ->]; cbn [length]; lia.
+    - destruct (parse t) as [st|]; [|inversion H; now subst].
+      apply run_stmt_cache in H. cbn [cache] in H. pose proof (lru_put_length t st (cache c)).
+      destruct H as [->| ->]; cbn [length]; lia.
+  Qed.
+
 End Laws.
 
 (** * Refutations of the unconditional statement on the faithful model.
@@ -409,4 +446,52 @@ Proof.
     destruct H1 as [H1|[H1|[H1|[]]]]; destruct H2 as [H2|[H2|[H2|[]]]]; inversion H1; inversion H2; subst; try reflexivity;
       discriminate.
   - repeat (first [apply Forall_nil | apply Forall_cons; [intros ps H; inversion H; subst; vm_compute; split; reflexivity|]]).
+Qed.
+
+(** * the code as it is now on the former witnesses *)
+Definition echo_now (calls : list (text * option (list pyval))) : list (outcome text) :=
+  fst (fst (run_now text unit text (@Some text) (fun _ => KSelect) (fun d s => (d, Some s)) 1000 tt new_cursor calls)).
+
+(** repaired: the second call executes its own value; arity and a missing tuple are noticed *)
+Theorem cache_witness_repaired :
+  let calls := [(sel_q, Some [PInt 1]); (sel_q, Some [PInt 2]); (sel_q, Some []); (sel_q, None)] in
+  echo_now calls = [OOk (sel_lit [49]); OOk (sel_lit [50]); OProgBind; OOk sel_q] /\
+  echo_now calls = echo_spec calls.
+Proof. cbv zeta. split; vm_compute; reflexivity. Qed.
+
+(** repaired: an infinity is refused instead of becoming the word inf *)
+Theorem nonfinite_witness_repaired :
+  let calls := [(sel_q, Some [PFloat inf_bits])] in
+  echo_now calls = [OProgBind] /\ echo_now calls = echo_spec calls.
+Proof. cbv zeta. split; vm_compute; reflexivity. Qed.
+
+(** still broken: a '?' inside a string literal is substituted and counted *)
+Theorem binding_now_refuted_literal :
+  let calls := [(sel_quoted_q, Some [PInt 5])] in
+  echo_now calls = [OOk (sel_lit [39; 53; 39])] /\ echo_spec calls = [OProgBind].
+Proof. cbv zeta. split; vm_compute; reflexivity. Qed.
+
+Theorem binding_now_refuted_literal_count :
+  let calls := [(sel_quoted_q, Some [])] in
+  echo_now calls = [OProgBind] /\ echo_spec calls = [OOk sel_quoted_q].
+Proof. cbv zeta. split; vm_compute; reflexivity. Qed.
+
+Theorem binding_faithful_now_unconditional_refuted :
+  ~ (forall (stmt D res : Type) (parse : text -> option stmt) (kind : stmt -> skind)
+            (exec : D -> stmt -> D * option res) (cap : nat) (calls : list (text * option (list pyval))) (d : D),
+       fst (fst (run_now stmt D res parse kind exec cap d new_cursor calls))
+       = fst (fst (run_spec stmt D res parse kind exec d calls))).
+Proof.
+  intros H.
+  specialize (H text unit text (@Some text) (fun _ => KSelect) (fun d s => (d, Some s)) 1000%nat
+                [(sel_quoted_q, Some [PInt 5])] tt).
+  vm_compute in H. discriminate.
+Qed.
+
+Example binding_faithful_now_ex :
+  let calls := [(sel_q, Some [PStr [97; 39]]); (sel_q, Some [PInt 9223372036854775808]); (sel_quoted_q, None)] in
+  Forall clean_now calls /\ echo_now calls = echo_spec calls /\ length (echo_now calls) = 3%nat.
+Proof.
+  cbv zeta. split; [|split; vm_compute; reflexivity].
+  repeat (first [apply Forall_nil | apply Forall_cons; [intros ps H; inversion H; subst; vm_compute; reflexivity|]]).
 Qed.
